@@ -15,23 +15,30 @@ func metricKeyHash(doc *birch.Document) (string, int) {
 	return fmt.Sprintf("%x", checksum.Sum(nil)), seen
 }
 
+// The bytes handed to the checksum must determine the metric schema. A field
+// name cannot contain a zero byte, so every path component, every container
+// and every metric is delimited by a zero byte and a mark: without the
+// delimiters the paths of {a, b: {c}} and {a: {b}, c} (or of {a: {b}} and
+// {"a.b"}) ran together into the same bytes and the two schemas shared a chunk.
 func metricKeyHashDocument(checksum hash.Hash, key string, doc *birch.Document) int {
+	_, _ = checksum.Write([]byte(key + "\x00{"))
 	iter := doc.Iterator()
 	seen := 0
 	for iter.Next() {
 		elem := iter.Element()
-		seen += metricKeyHashValue(checksum, fmt.Sprintf("%s.%s", key, elem.Key()), elem.Value())
+		seen += metricKeyHashValue(checksum, fmt.Sprintf("%s\x00.%s", key, elem.Key()), elem.Value())
 	}
 
 	return seen
 }
 
 func metricKeyHashArray(checksum hash.Hash, key string, array *birch.Array) int {
+	_, _ = checksum.Write([]byte(key + "\x00["))
 	seen := 0
 	iter := array.Iterator()
 	idx := 0
 	for iter.Next() {
-		seen += metricKeyHashValue(checksum, fmt.Sprintf("%s.%d", key, idx), iter.Value())
+		seen += metricKeyHashValue(checksum, fmt.Sprintf("%s\x00.%d", key, idx), iter.Value())
 		idx++
 	}
 
@@ -45,22 +52,22 @@ func metricKeyHashValue(checksum hash.Hash, key string, value *birch.Value) int 
 	case bsontype.EmbeddedDocument:
 		return metricKeyHashDocument(checksum, key, value.MutableDocument())
 	case bsontype.Boolean:
-		_, _ = checksum.Write([]byte(key))
+		_, _ = checksum.Write([]byte(key + "\x00;"))
 		return 1
 	case bsontype.Double:
-		_, _ = checksum.Write([]byte(key))
+		_, _ = checksum.Write([]byte(key + "\x00;"))
 		return 1
 	case bsontype.Int32:
-		_, _ = checksum.Write([]byte(key))
+		_, _ = checksum.Write([]byte(key + "\x00;"))
 		return 1
 	case bsontype.Int64:
-		_, _ = checksum.Write([]byte(key))
+		_, _ = checksum.Write([]byte(key + "\x00;"))
 		return 1
 	case bsontype.DateTime:
-		_, _ = checksum.Write([]byte(key))
+		_, _ = checksum.Write([]byte(key + "\x00;"))
 		return 1
 	case bsontype.Timestamp:
-		_, _ = checksum.Write([]byte(key))
+		_, _ = checksum.Write([]byte(key + "\x00;"))
 		return 2
 	default:
 		return 0
